@@ -458,7 +458,9 @@ def run_json(case):
        'json_documents_parsed': 0, 'attachments_round_tripped': 0}
   vals = [VALUES[i] for i in case['vals']]
   blobs = {'a.bin': bytes(range(256)), 'b.txt': 'text ü'.encode('utf-8'),
-           'empty': b''}
+           'empty': b'',
+           # larger than any plausible internal chunk, length not a multiple of 3
+           'big.bin': bytes((i * 7 + i // 251) % 256 for i in range(200003))}
 
   def body(test):
     test.measurements['s'] = vals[0]
